@@ -338,11 +338,49 @@ Proof.
   vm_compute. intuition congruence.
 Qed.
 
+(** * widened: cut a range out with Slice (slice.go, C14's model), walk the result *)
+From Low Require Import Model.BitmapJoin Proofs.NextSlice.
+
+(** the NextOne walk of [Slice(bm, from, to)] returns the 1-bits of [from, to) shifted to start at 0, the PrevOne
+    walk the same list reversed (single NextOne / PrevOne calls on a slice: C14_Slice_NextOne / C14_Slice_PrevOne) *)
+Theorem C13_Slice_walk : forall ws from to, words_ok ws -> 0 <= from <= to -> to <= 64 * zlen ws ->
+  let l := map (fun p => p - from) (ones_in ws from to) in
+  SliceWalk ws from to = Some (l, rev l).
+Proof. exact SliceWalk_exact. Qed.
+Print Assumptions C13_Slice_walk.
+
+Example C13_Slice_walk_nonvacuous :
+  words_ok [2^63 + 1; 0; 6] /\
+  SliceWalk [2^63 + 1; 0; 6] 63 131 = Some ([0; 66; 67], [67; 66; 0]) /\
+  Slice [2^63 + 1; 0; 6] 63 131 = Some [1; 12] /\
+  SliceWalk [2^63 + 1; 0; 6] 64 129 = Some ([], []).
+Proof.
+  split; [apply words_okb_ok; reflexivity|].
+  vm_compute. intuition congruence.
+Qed.
+
+(** * the anchor in mask.go: the table reads of next.go *)
+From Low Require Import Model.BitmapMask Proofs.NextMask.
+
+(** [RMask[i & 63]] and [MaskUpto[end & 63]] read from the tables filled by [initMasks] (Model/BitmapMask.v, uint64
+    arithmetic written out) never panic and are the closed forms Model/BitmapNext.v writes for them *)
+Theorem C13_mask_reads : forall x,
+  nthZ (tRMask initMasks) (Z.land x 63) = Some (RMask (Z.land x 63)) /\
+  nthZ (tMaskUpto initMasks) (Z.land x 63) = Some (MaskUpto (Z.land x 63)).
+Proof. exact next_mask_reads. Qed.
+Print Assumptions C13_mask_reads.
+
+Example C13_mask_reads_nonvacuous :
+  nthZ (tRMask initMasks) (Z.land 127 63) = Some (2^64 - 2^63) /\
+  nthZ (tMaskUpto initMasks) (Z.land (-1) 63) = Some (2^64 - 1) /\
+  nthZ (tMaskUpto initMasks) 64 = None.
+Proof. vm_compute. intuition congruence. Qed.
+
 (** * the protocol operations of ./check C13 against the theorems above *)
 From Coq Require String.
 From Low Require Import Lib.Val Run.C13 Proofs.NextRunProofs.
 
-(** for EVERY argument list, each of the 17 operations of [ops_C13] (Run/C13.v, Run/NextWide.v) either rejects the
+(** for EVERY argument list, each of the 18 operations of [ops_C13] (Run/C13.v, Run/NextWide.v) either rejects the
     arguments as malformed / outside its domain ([VBad]) or produces a model output that its specification side
     accepts: the functions the driver evaluates are exactly the ones the theorems of this file are about *)
 Theorem C13_ops_model_satisfies_spec : Forall op_ok ops_C13.
@@ -355,7 +393,7 @@ Proof. exact C13_never_modelbug. Qed.
 Print Assumptions C13_never_modelbug.
 
 Example C13_ops_nonvacuous :
-  List.length ops_C13 = 17%nat /\
+  List.length ops_C13 = 18%nat /\
   (exists d, In d ops_C13 /\
      op_run d [VL [VL [VZ 1; VZ 4]]; VZ 3; VZ 128] = VZ 66 /\
      op_spec d [VL [VL [VZ 1; VZ 4]]; VZ 3; VZ 128] (VZ 66) = true /\
